@@ -102,6 +102,11 @@ def to_S(v):
         return PYSTR(v) if v.is_int() else PYSTR_R(v)
     if isinstance(v, z3.SeqRef):
         return v
+    if isinstance(v, Alt) and v.alts:
+        r = to_S(v.alts[-1][1])
+        for c, x_ in v.alts[-2::-1]:
+            r = z3.If(c, to_S(x_), r)
+        return r
     raise Unsupported('str of %s' % type(v).__name__)
 
 
@@ -971,6 +976,12 @@ class X:
                 return Z(v)
             if isinstance(v, S):
                 raise Unsupported('int(str)')
+            if isinstance(v, E) and v.is_const():
+                try:
+                    return int(v.alts[0][1])
+                except ValueError:
+                    st.add_raise(TRUE, 'ValueError', ln)
+                    raise Unsupported('int() of a non-numeric literal')
             c = conc(v)
             if c is not None and not isinstance(v, z3.ExprRef):
                 return int(c)
@@ -1183,6 +1194,12 @@ class X:
                 return T(v.items, v.kind)
             if name == 'index':
                 raise Unsupported('list.index')
+        if isinstance(v, E) and v.is_const() and name in ('split', 'strip', 'lower', 'upper'):
+            sv = v.alts[0][1]
+            if name == 'split':
+                sep = conc(args[0]) if args else None
+                return T([E.const(p_) for p_ in sv.split(sep)], 'list')
+            return E.const(getattr(sv, name)())
         if isinstance(v, (E, S)):
             if name == 'format':
                 raise Unsupported('str.format')
@@ -1705,3 +1722,48 @@ class X:
 
     def st_Delete(self, s, env, st):
         raise Unsupported('del')
+
+
+
+class Poison:
+    def __init__(self, why):
+        self.why = why
+
+
+class TolerantX(X):
+    """executor for *slices* of large functions: a statement whose value is outside the subset poisons the names it assigns (using a
+    poisoned name later is Unsupported); expression statements outside the subset are skipped and recorded in `dropped`.
+    What is dropped is reported in the evidence of the obligation that uses the slice."""
+    def __init__(self, *a, **k):
+        X.__init__(self, *a, **k)
+        self.dropped = []
+
+    def st_Assign(self, s, env, st):
+        try:
+            return X.st_Assign(self, s, env, st)
+        except Unsupported as e:
+            self.dropped.append('line %d: %s  [%s]' % (s.lineno, ast.unparse(s)[:80], str(e)[:60]))
+            for t in s.targets:
+                for n in ast.walk(t):
+                    if isinstance(n, ast.Name):
+                        env[n.id] = Poison(str(e))
+
+    def st_AnnAssign(self, s, env, st):
+        try:
+            return X.st_AnnAssign(self, s, env, st)
+        except Unsupported as e:
+            self.dropped.append('line %d: %s' % (s.lineno, ast.unparse(s)[:80]))
+            if isinstance(s.target, ast.Name):
+                env[s.target.id] = Poison(str(e))
+
+    def st_Expr(self, s, env, st):
+        try:
+            return X.st_Expr(self, s, env, st)
+        except Unsupported as e:
+            self.dropped.append('line %d: %s  [%s]' % (s.lineno, ast.unparse(s)[:80], str(e)[:60]))
+
+    def ev_Name(self, e, env, st):
+        v = env.get(e.id)
+        if isinstance(v, Poison):
+            raise Unsupported('value outside the subset (%s)' % v.why)
+        return X.ev_Name(self, e, env, st)
